@@ -1,1 +1,239 @@
-fn main() { eprintln!("not built yet"); std::process::exit(2); }
+//! vp-agones: runtime monitor for C20 — "Agones discovery offers exactly the currently ready game
+//! servers". The real `AgonesDiscoveryAdapter` lists and watches a loopback mock of the Kubernetes
+//! API that serves scripted histories (events, bookmarks, dropped watches, 410 re-lists); after
+//! every step `discover()` is polled until it equals the reference set or the settling bound
+//! (2 s after an ordinary event, 10 s after a fault / list) has passed.
+
+mod history;
+mod mock;
+mod oracle;
+mod run;
+
+use history::{CHANGE_CLASSES, FAULT_KINDS, History, Step};
+use run::{Lateness, Outcome, RunCfg};
+use serde_json::{Value, json};
+use std::collections::BTreeMap;
+use std::sync::Arc;
+use vp_common::report::{self, Cli, Report};
+
+const RULE: &str = "seeded random histories (initial list, then <= 15 steps of ADDED / MODIFIED / DELETED / BOOKMARK over <= 8 GameServers and all 11 Agones states, with unconvertible objects) in which watch faults are enumerated round-robin over 8 fault kinds (clean / abrupt / mid-line drop, live 410, 410 on resume, each optionally with a re-list attempt failing at a page) x 8 classes of change applied while disconnected; one evaluation = one history run against the real adapter with every step judged; a history is non-trivial if at least one judged step changes the expected offered set or the fields of an offered server, distinct = distinct sequence of (event kind, state-class transition of the touched server, fault kind, offline change)";
+
+fn main() {
+    let cli = Cli::parse();
+
+    // The adapter builds its kube client from the environment only (Client::try_default), so the
+    // process-global KUBECONFIG is set exactly once, before any other thread exists. All adapters
+    // of this process talk to the same listener; the mock routes by namespace / label selector.
+    let listener = match std::net::TcpListener::bind("127.0.0.1:0") {
+        Ok(l) => l,
+        Err(e) => fatal(&cli, &format!("cannot bind the mock API listener: {e}")),
+    };
+    let _ = listener.set_nonblocking(true);
+    let port = listener.local_addr().map(|a| a.port()).unwrap_or(0);
+    let root = std::env::var("VERIF_ROOT").unwrap_or_else(|_| "/verif".into());
+    let run_dir = format!("{root}/.run/{}", std::process::id());
+    let kubeconfig = format!("{run_dir}/kubeconfig.yaml");
+    let written = std::fs::create_dir_all(&run_dir).and_then(|_| {
+        std::fs::write(
+            &kubeconfig,
+            format!(
+                "apiVersion: v1\nkind: Config\nclusters:\n- name: vp-mock\n  cluster:\n    server: http://127.0.0.1:{port}\ncontexts:\n- name: vp-mock\n  context:\n    cluster: vp-mock\n    user: vp-mock\n    namespace: default\ncurrent-context: vp-mock\nusers:\n- name: vp-mock\n  user:\n    token: vp-mock-token\n"
+            ),
+        )
+    });
+    if let Err(e) = written {
+        fatal(&cli, &format!("cannot write {kubeconfig}: {e}"));
+    }
+    // SAFETY: no other thread has been started yet.
+    unsafe {
+        std::env::set_var("KUBECONFIG", &kubeconfig);
+        for proxy in ["HTTP_PROXY", "http_proxy", "HTTPS_PROXY", "https_proxy", "ALL_PROXY", "all_proxy"] {
+            std::env::remove_var(proxy);
+        }
+    }
+
+    report::watchdog(&cli.prop, cli.tier.pick(300, 1500));
+    let mut report = Report::new(&cli, "fault_enumeration", RULE);
+    report.set_max_samples(3);
+
+    let extra_u64 = |k: &str| cli.extra.get(k).and_then(|s| s.parse::<u64>().ok());
+    let (histories, replaying): (Vec<History>, bool) = match &cli.replay {
+        Some(path) => {
+            let parsed = std::fs::read_to_string(path)
+                .ok()
+                .and_then(|t| serde_json::from_str::<Value>(&t).ok())
+                .and_then(|v| {
+                    let h = v.pointer("/witness/history").or_else(|| v.get("history")).cloned().unwrap_or(v);
+                    History::from_json(&h)
+                });
+            match parsed {
+                Some(h) => (vec![h], true),
+                None => {
+                    report.inconclusive_fatal(&format!("cannot read a history from {}", path.display()));
+                    cleanup(&run_dir);
+                    std::process::exit(report.finish());
+                }
+            }
+        }
+        None => {
+            let n = extra_u64("histories").unwrap_or_else(|| cli.scaled(cli.tier.pick(32, 512)));
+            let faults = cli.tier.pick(2, 3);
+            ((0..n).map(|i| history::generate(cli.seed, i, 15, faults)).collect(), false)
+        }
+    };
+    let concurrency = extra_u64("concurrency").unwrap_or(cli.tier.pick(64, 128)).max(1) as usize;
+
+    let runtime = match tokio::runtime::Builder::new_multi_thread()
+        .worker_threads(cli.threads().max(2))
+        .enable_all()
+        .build()
+    {
+        Ok(r) => r,
+        Err(e) => {
+            report.inconclusive_fatal(&format!("cannot start the runtime: {e}"));
+            cleanup(&run_dir);
+            std::process::exit(report.finish());
+        }
+    };
+
+    let histories = Arc::new(histories);
+    let results: Vec<(usize, Outcome, u32)> = runtime.block_on(run_all(listener, Arc::clone(&histories), concurrency));
+
+    // fold the outcomes into the report
+    let mut matrix: BTreeMap<String, BTreeMap<String, u64>> = BTreeMap::new();
+    let mut fault_settle_max: BTreeMap<String, u64> = BTreeMap::new();
+    let (mut max_ord, mut max_fault) = (0u64, 0u64);
+    let mut aborted = 0usize;
+    let mut sampled_fault = false;
+    for (i, outcome, attempts) in results {
+        let h = &histories[i];
+        let (shape, nontrivial) = h.shape();
+        if attempts > 1 {
+            report.count("histories retried because the harness was late", 1);
+        }
+        if outcome.voided {
+            report.inconclusive(&format!("history {}: verdict withheld twice because the harness itself was late", h.id));
+            continue;
+        }
+        if let Some(why) = &outcome.aborted {
+            aborted += 1;
+            report.inconclusive(&format!("history {}: {why}", h.id));
+        }
+        if outcome.steps_judged == 0 {
+            continue;
+        }
+        report.eval(if nontrivial { Some(&shape) } else { None });
+        report.count("steps judged (initial list, events, bookmarks, faults, quiescence)", outcome.steps_judged);
+        for (k, v) in &outcome.counters {
+            report.count(k, *v);
+        }
+        for s in &h.steps {
+            if let Step::Fault(f) = s {
+                *matrix.entry(f.kind_label.clone()).or_default().entry(f.change_label.clone()).or_insert(0) += 1;
+            }
+        }
+        for (kind, ms) in &outcome.fault_settles {
+            let e = fault_settle_max.entry(kind.clone()).or_insert(0);
+            *e = (*e).max(*ms);
+        }
+        max_ord = max_ord.max(outcome.max_settle_ordinary_ms);
+        max_fault = max_fault.max(outcome.max_settle_fault_ms);
+        let has_relist = h.steps.iter().any(|s| matches!(s, Step::Fault(f) if f.relists()));
+        if report.wants_sample() && (i == 0 || (has_relist && !sampled_fault)) {
+            sampled_fault |= has_relist;
+            report.sample(json!({
+                "history": h.to_json(),
+                "observed": outcome.trace,
+                "mock_requests": outcome.requests,
+            }));
+        }
+        for f in outcome.findings {
+            report.violation(&f.signature, &f.what, f.witness);
+        }
+    }
+    let cells: u64 = matrix.values().map(|m| m.len() as u64).sum();
+    report.set("fault_matrix", json!(matrix));
+    report.set(
+        "fault_matrix_cells_covered",
+        json!(format!("{cells} of {}", FAULT_KINDS.len() * CHANGE_CLASSES.len())),
+    );
+    report.set(
+        "settling_ms",
+        json!({
+            "bound_ordinary": run::BOUND_ORDINARY.as_millis() as u64,
+            "bound_fault_or_list": run::BOUND_FAULT.as_millis() as u64,
+            "max_observed_ordinary": max_ord,
+            "max_observed_fault_or_list": max_fault,
+            "max_observed_by_fault_kind": fault_settle_max,
+        }),
+    );
+    if replaying {
+        report.set("replayed", json!(true));
+    }
+    if aborted * 5 > histories.len() {
+        report.inconclusive_fatal(&format!("{aborted} of {} histories could not be judged to the end", histories.len()));
+    }
+    report.assume("the mock API answers like an API server in the respects the kube watcher relies on: consistent paged lists, watch resume replays the events after the given resourceVersion, an expired resourceVersion is answered with an ERROR 410 watch event (the form kube-rs reacts to by re-listing)");
+    report.assume("at most three error-class faults per history, ordered so that the watcher's exponential back-off (0.8 s doubling, jitter < 2x, assumed never reset) stays below 7 s, inside the 10 s bound");
+    report.assume("identifier of a target = metadata.name; targets are compared as a set keyed by identifier, order is not judged; metadata keys the object never carried are tolerated");
+    report.assume("generated objects always deserialise (status.address and status.state present, ports absent or a list, never null) and their counter / list / label / annotation keys do not collide with each other or with 'state'");
+    report.assume("membership and fields of a server whose latest object is Ready/Allocated but unconvertible (no ports, unparsable address) are not judged");
+    report.assume("harness lateness above a quarter of the bound (side timers on the runtime and on a plain thread) voids a timing verdict: the history is retried once, then reported inconclusive");
+
+    drop(runtime);
+    cleanup(&run_dir);
+    std::process::exit(report.finish());
+}
+
+fn cleanup(run_dir: &str) {
+    let _ = std::fs::remove_dir_all(run_dir);
+}
+
+fn fatal(cli: &Cli, why: &str) -> ! {
+    let mut report = Report::new(cli, "fault_enumeration", RULE);
+    report.inconclusive_fatal(why);
+    std::process::exit(report.finish());
+}
+
+async fn run_all(
+    listener: std::net::TcpListener,
+    histories: Arc<Vec<History>>,
+    concurrency: usize,
+) -> Vec<(usize, Outcome, u32)> {
+    let mock = mock::Mock::new();
+    let listener = tokio::net::TcpListener::from_std(listener).expect("listener");
+    mock.serve(listener);
+    let lateness = Lateness::start();
+    let sem = Arc::new(tokio::sync::Semaphore::new(concurrency));
+    let mut handles = Vec::new();
+    for i in 0..histories.len() {
+        let (mock, histories, sem, lateness) = (Arc::clone(&mock), Arc::clone(&histories), Arc::clone(&sem), Arc::clone(&lateness));
+        handles.push(tokio::spawn(async move {
+            let _permit = sem.acquire_owned().await.expect("semaphore");
+            let cfg = RunCfg { lateness };
+            let mut attempts = 1;
+            let mut outcome = run::run_history(&mock, &histories[i], &cfg).await;
+            if outcome.voided {
+                attempts += 1;
+                outcome = run::run_history(&mock, &histories[i], &cfg).await;
+            }
+            (i, outcome, attempts)
+        }));
+    }
+    let mut results = Vec::new();
+    for (i, h) in handles.into_iter().enumerate() {
+        match h.await {
+            Ok(r) => results.push(r),
+            Err(e) => {
+                let mut o = Outcome::default();
+                o.aborted = Some(format!("the driver task of history {i} panicked: {e}"));
+                results.push((i, o, 1));
+            }
+        }
+    }
+    let unrouted = mock.unrouted.lock().unwrap_or_else(|e| e.into_inner()).clone();
+    if !unrouted.is_empty() {
+        eprintln!("mock: {} requests matched no universe, e.g. {}", unrouted.len(), unrouted[0]);
+    }
+    results
+}
